@@ -24,10 +24,11 @@ type Sess struct {
 	nops int
 
 	// while capturing, operations are recorded instead of written (concurrent rounds emit them afterwards)
-	mute      bool // dry runs: nothing is written to the trace
-	capMu     sync.Mutex
-	capturing bool
-	captured  []capRec
+	mute           bool // dry runs: nothing is written to the trace
+	wireNullMarker bool // ListVersions: send version-id-marker=null where the trace says "no version id marker"
+	capMu          sync.Mutex
+	capturing      bool
+	captured       []capRec
 }
 
 type capRec struct {
